@@ -1,5 +1,6 @@
 """C01 / C02 / C15 — framing layer.  One runner, parameterised by property (they share streams but differ in
 the oracle that turns an implementation output into a verdict)."""
+import os
 import tempfile
 import shutil
 
@@ -170,6 +171,41 @@ def real_record_stream(prop, tier, chk, model, bres):
         shutil.rmtree(tmp, ignore_errors=True)
 
 
+def wide_rows_stream(tier, chk):
+    """writability does not depend on how wide a frame row is: rows of 64 KiB .. 2 MiB + 3 bytes (one multi-sample channel,
+    two rows), with and without an explicit input chunk size; the file must be at least as long as the rows it holds"""
+    import numpy as np
+    from dliswriter import DLISFile
+    tmp = tempfile.mkdtemp(prefix='verif_wide_')
+    try:
+        widths = [65536, 1048576, 1048577, 2097155] if tier == 'quick' else [65536, 131072, 1048575, 1048576, 1048577, 1048584, 2097155]
+        for w in widths:
+            for dt, div in (('uint8', 1), ('float64', 8)):
+                k = max(w // div, 1)
+                for ic in (None, 1):
+                    fn = f'{tmp}/wide.dlis'
+
+                    def go():
+                        df = DLISFile(set_identifier='WIDE', max_record_length=16384)
+                        lf = df.add_logical_file()
+                        lf.add_origin('O', file_set_number=1, creation_time='2020/01/01 00:00:00')
+                        data = (np.arange(2 * k) % 251).astype(dt).reshape(2, k)
+                        ch = lf.add_channel('IMG', data=data)
+                        lf.add_frame('F', channels=[ch])
+                        df.write(fn, output_chunk_size=2**22, input_chunk_size=ic)
+                    st, err = call(go)
+                    case = {'row_bytes': k * div, 'dtype': dt, 'samples_per_row': k, 'rows': 2, 'input_chunk_size': ic}
+                    chk.case('wide-rows', nontrivial_key=('wide', w, dt, ic), sample=dict(case, status=st if st == 'ok' else err))
+                    if st != 'ok':
+                        chk.fail('wide-rows:valid-spec-not-writable', case, f'write raised {err}')
+                        continue
+                    size = os.path.getsize(fn)
+                    if size < 2 * k * div:
+                        chk.fail('wide-rows:rows-missing', case, f'the file has {size} bytes, the two rows alone take {2 * k * div}')
+    finally:
+        shutil.rmtree(tmp, ignore_errors=True)
+
+
 def run_prop(prop, tier):
     chk = Check(prop, tier)
     chk.rule = ('(a) exhaustive (capacity, body length) window through the real make_segments: capacities 12..40 '
@@ -183,6 +219,8 @@ def run_prop(prop, tier):
     run_l1(prop, tier, chk, model, bres)
     if prop == 'C02':
         real_record_stream(prop, tier, chk, model, bres)
+    if prop == 'C15':
+        wide_rows_stream(tier, chk)
     try:
         from harness import filegen
         filegen.run_framing_stream(prop, tier, chk, model, bres)
